@@ -24,6 +24,8 @@ RULES_DOC = dict(common.SHARED_DOC)
 RULES_DOC["R5"] = "unit_unmap_thread clears exactly one entry of the bucket on every path (the walk stops at the first match): two user pools may hand out equal unit values for one work unit while it moves, and the entry just registered must survive the removal of the old one"
 RULES_DOC["X4"] = common.X4_DOC
 RULES_DOC["R6"] = "= C11.R4: ABT_thread_yield_to removes the target's unit from the target's own pool (the pool that holds the unit), before switching to it"
+RULES_DOC["R7"] = "the legacy batch-pop emulation writes handles only at indices below the caller's array length (the loop over the caller's array is bounded by `i < max`, never `<=`), and reports exactly the number it wrote"
+RULES_DOC["R8"] = "= C07.R7: the batch push hands the pool the unit each work unit has after it was associated with that pool (compaction with one counter, the slot written after the association)"
 RULES_DOC.update({
     "R1": "unit typestate on every path of set/init/unset associated pool: create -> map -> store | free(new) ; unmap(old) -> free(old pool) once; no use after free",
     "R2": "unit map: node initialised before the release-store publication, acquire-load lookups, all bucket writes under the bucket lock, head read and publication in one critical section",
@@ -393,6 +395,28 @@ def rule_R5(P, rep):
     rep.need(n >= 1, "unit_unmap_thread: no returning path")
 
 
+def rule_R7(P, rep):
+    F = P.fn("pool_pop_many_wrapper", "src/pool/pool.c")
+    arr = [p["n"] for p in F.params if p["t"].replace(" ", "") == "ABT_thread*"]
+    cnt = [p["n"] for p in F.params if p["t"].replace(" ", "") == "size_t"]
+    rep.need(len(arr) == 1 and cnt, "pool_pop_many_wrapper: parameters %s" % F.params)
+    st = [(i, F.nodes[F.strip(lh)]) for _b, i, lh, rh in F.stores() if F.nodes[F.strip(lh)].get("k") == "idx" and F.base_var(lh) == arr[0]]
+    rep.need(st, "pool_pop_many_wrapper does not store into the caller's array")
+    for i, ln in st:
+        ix = F.nodes[F.strip(ln["i"])].get("n")
+        heads = [a for a, k in ctrldep_closure(F, F.block_of(i)) if F.blocks[a].tk in ("ForStmt", "WhileStmt", "DoStmt") and F.blocks[a].tc is not None]
+        labs = [canon.cond(F, cfg.cond_atom(F, F.blocks[a].tc, True)[0]) for a in heads]
+        ok = any(lab == "%s < %s" % (ix, cnt[0]) and not flip for lab, flip in labs)
+        rep.ob("R7", "pool_pop_many_wrapper stores threads[%s] only while %s < %s" % (ix, ix, cnt[0]), ok,
+               "the loop over the caller's array is bounded by %s" % [("!" if fl else "") + "(" + l + ")" for l, fl in labs],
+               loc=F.loc(i), site="pop_many_wrapper/bound")
+
+
+def ctrldep_closure(F, bid):
+    from abtverif import ctrldep
+    return ctrldep.closure(F, bid)
+
+
 def run(P, rep, tier):
     common.rule_X4(P, rep)
     common.run_shared(P, rep, which=("X2",))
@@ -402,6 +426,9 @@ def run(P, rep, tier):
     rule_R5(P, rep)
     from . import C11
     common.borrow(rep, P, C11.rule_R4, "R6")
+    rule_R7(P, rep)
+    from . import C07
+    common.borrow(rep, P, C07.rule_R7, "R8")
     sub = type(rep)(rep.prop, rep.tier, rep.variant)
     C03.rule_R5(P, sub)
     for o in sub.obligations:
